@@ -16,11 +16,11 @@ CLAIMS = {
 }
 
 CLAIMS['C09'] = dict(
-    technique='panic-edge inventory with discharge rules, loop-shape classification, allocation provenance, dominance rules on the buffer-growth protocol',
+    technique='panic-edge inventory with discharge rules, loop-shape classification, allocation provenance, dominance rules on the buffer-growth protocol; finite-domain abstract interpretation of the streaming loops (stall-graph acyclicity)',
     text='Static analysis over the MIR of sym_file/{mod,parser,types}.rs: every panic edge is discharged (constant, interval, dominating guard, idiom or a reviewed per-site argument), '
          'every loop is iterator-driven over a finite std source, an await loop, or has a reviewed variant whose flag protocol is itself checked, the window buffer is created with the constant '
          'initial capacity and every grow() is dominated by the cap test, and the cap-exceeded edge enters recovery instead of returning an error. Decides totality and the fixed window for all inputs '
-         'up to the stated trust in nom/circular; it does not measure memory.',
+         'up to the stated trust in nom/circular; it does not measure memory. Termination of the two streaming loops is decided by a boolean abstraction extracted from MIR on every run (C09.5): over the reachable valuations of the loop\'s bool flags, window-empty and stale bits, iterations that neither read nor consume a byte form no cycle.',
     note='Trusted: rustc MIR, the extractor, nom and circular through the API table, the reviewed tables py/tables/*.json (one argument per site key; entries with a backing rule are void when that rule fails). usize = 64 bit.',
     ref='DESIGN.md §3 C09')
 CLAIMS['C20'] = dict(
@@ -110,20 +110,20 @@ CLAIMS['C06'] = dict(
     note='Trusted: rustc MIR, u64::wrapping_* semantics, BTreeMap insertion order semantics for overriding rules.',
     ref='DESIGN.md §3 C06')
 CLAIMS['C07'] = dict(
-    technique='dispatch-table extraction, register-name alphabet dataflow against the x86 context table, dominance, panic-edge inventory',
+    technique='dispatch-table extraction, register-name alphabet dataflow against the x86 context table, dominance, panic-edge inventory; reaching-definition formula table for the FPO evaluator',
     text='Narrow claim: structural clauses of the STACK WIN semantics. The operator table of eval_win_expr (same rules as C06 on u32 plus `=` and `.undef`), the six predefined constants and their sources, the `@` search-start rule, '
          'the output alphabet (only eip esp ebp ebx esi edi reported), clearing before evaluation and framedata-before-fpo priority are extracted and checked; every register name handed to the FrameWalker interface must be a name the x86 context knows. '
          'The last rule exposes a genuine defect (names are cleared with a `$` prefix, so nothing is cleared and callee registers are forwarded); it is a recorded known finding because the obvious repair changes two existing CLI snapshots. '
-         'Two overflow panics in this code were repaired in /repo. Numeric results are not computed.',
+         'Two overflow panics in this code were repaired in /repo. Numeric results are not computed. FPO formula table (C07.6): for every path to every set_caller_register call in walk_with_stack_win_fpo the reaching definitions are substituted into the value and compared, as linear address forms, with the documented $eip/$esp/$ebp/%ebx formulae incl. the leftover-return-address skip; the branch conditions must be the documented decisions.',
     note='Trusted: rustc MIR, u32::wrapping_* semantics. Table entries marked ASSUMPTION (32-bit callee registers) apply to the FPO arithmetic.',
     ref='DESIGN.md §3 C07')
 
 CLAIMS['C04'] = dict(
-    technique='call ordering by reachability and guard dominance, constant labels, MIR-level sibling diff, register-name table cross-check',
+    technique='call ordering by reachability and guard dominance, constant labels, MIR-level sibling diff, register-name table cross-check; reaching-definition formula table for the FPO technique',
     text='Narrow claim: necessary structural conditions only. Decided for every input: technique priority cfi > frame pointer > scan with each later technique guarded by frame.is_none() and no way back; technique labels; '
          'arm64.rs and arm64_old.rs are the same MIR modulo the context type; every register name the unwinders use exists in its context\'s tables and every name inserted into or tested against a validity set is the canonical (memoized) spelling; '
          'scan windows (40/160 words, 15 x 16 bytes on amd64 Windows, 1024 bytes on MIPS) equal the documented values. Two alias-spelling defects found by the last rule were repaired in /repo. '
-         'That the right frames come out of a given stack is behavioural and NOT decided: a fault inside a technique\'s arithmetic is invisible here.',
+         'That the right frames come out of a given stack is behavioural and NOT decided: a fault inside a technique\'s arithmetic is invisible here. The x86 FPO technique is checked as a formula table (shared with C07.6): reaching definitions along every path to every set_caller_register call, compared as linear address forms with the documented formulae, and the two decisions compared with the documented ones.',
     note='Trusted: rustc MIR, the C18 tables (reused). The twin comparison is order-sensitive over statements and terminators with unnamed locals anonymised; reordering independent statements in only one twin is reported.',
     ref='DESIGN.md §3 C04')
 CLAIMS['C08'] = dict(
@@ -134,25 +134,25 @@ CLAIMS['C08'] = dict(
     note='Trusted: range-map crate (RangeMap::get / try_from_iter), slice::sort_by_key. Path feasibility pruning uses purity of the comparisons and saturating_add(e,k) >= e.',
     ref='DESIGN.md §3 C08')
 CLAIMS['C10'] = dict(
-    technique='consume/callback pairing by dominance, return-shape dataflow, transition-table equality of the sync and async parse loops',
+    technique='consume/callback pairing by dominance, return-shape dataflow, transition-table equality of the sync and async parse loops; finite-domain abstract interpretation of the streaming loops (staleness bit)',
     text='Narrow claim: in SymbolFile::parse and parse_async every buf.consume(n) is dominated by callback(&buf.data()[..n]) with nothing touching the buffer in between and no other way for bytes to leave the window, so the bytes handed to the callback are exactly the consumed prefix; '
          'parse_more returns 0 or the length of the input trimmed after its last newline; the two loops have identical transition tables (every buffer / flag / return effect with its guard conditions), so HTTP chunking feeds the same state machine as a Read; the cache tee is a pure writer. '
-         'Equality of parse outcomes across chunk schedules is behavioural and not decided.',
+         'Equality of parse outcomes across chunk schedules is behavioural and not decided. The same boolean abstraction decides (C10.5) that fully_consumed is never tested for the end-of-input decision while bytes have arrived since it was last computed, for every chunking.',
     note='Trusted: circular::Buffer (data / consume semantics), rustc MIR of the coroutine before the state transform.',
     ref='DESIGN.md §3 C10')
 CLAIMS['C11'] = dict(
-    technique='sort-before-search dominance, derived-Ord field order, key projection shape, guard dominance on base subtraction',
+    technique='sort-before-search dominance, derived-Ord field order, key projection shape, guard dominance on base subtraction; path-sensitive found-implies-reported rule',
     text='Narrow claim: the searches of symbolication run on data sorted by the very key they search (the sort dominates the store; Inlinee orders by (depth, address), PublicSymbol by address), the inlinee candidate is re-checked for depth and coverage, '
          'the module base is never subtracted from a smaller address, reported bases are the looked-up record\'s address plus the module base, the PUBLIC fallback is a reverse scan for address <= addr, and inline frames are reversed exactly once after symbolication. '
-         'That the right record is returned for every record set is not decided.',
+         'That the right record is returned for every record set is not decided. Found implies reported (C11.5): path-sensitively, not-found outcomes of get_outermost_sourceloc are reached only with the lookups consulted and empty, the inline call site does not depend on the line lookup, and in fill_symbol the reporting calls post-dominate the found edges.',
     note='Trusted: slice::binary_search_by_key, RangeMap::get, rustc MIR.',
     ref='DESIGN.md §3 C11')
 
 CLAIMS['C02'] = dict(
-    technique='endianness provenance dataflow on every scroll read, LE/BE twin comparison of byte-order branches, derive pairing from the impl table, insert discipline of the directory loop',
+    technique='endianness provenance dataflow on every scroll read, LE/BE twin comparison of byte-order branches, derive pairing from the impl table, insert discipline of the directory loop; who-may-call on text decoders',
     text='Narrow claim: only the byte-order and layout-pairing clauses. Every scroll read that takes an Endian context (329 call sites in minidump and minidump-common) receives an endianness data-flow-derived from a parameter or field, '
          'and Endian constants occur only in the signature probe of Minidump::read; every branch on the byte order has a Little and a Big arm that are LE/BE twins; every format.rs type read through scroll derives Pread and SizeWith from one field list '
-         '(the five hand-written readers are a reviewed list); duplicate directory entries are stored by an unconditional insert in file order, so the last one is served. Field offsets/padding against the serializer, identifier derivation and memory contents relate values to values and are NOT decided.',
+         '(the five hand-written readers are a reviewed list); duplicate directory entries are stored by an unconditional insert in file order, so the last one is served. Field offsets/padding against the serializer, identifier derivation and memory contents relate values to values and are NOT decided. Text decoding: only the BOM-agnostic, replacement-free encoding_rs decoders, with the UTF-16 encoding selected by the byte order (arms read from discriminant facts).',
     note='Trusted: scroll and its derives, rustc MIR and impl table.',
     ref='DESIGN.md §3 C02')
 CLAIMS['C15'] = dict(
@@ -160,7 +160,7 @@ CLAIMS['C15'] = dict(
     text='Narrow claim: structure, not values. The tree of object keys print_json can emit (reconstructed from the MIR of every json! expansion, map["k"] = .. and insert mutation, and serde-derived struct reachable from it) equals the key tree of json-schema.md in both directions '
          '(one reviewed documentation gap: proc_limits); every key documented <hexstring> is built by json_hex, an Address (serialised through its Display impl) or a hex format; every documented enumeration value can be produced; '
          'set_print_context() dominates all formatting; thread_count / frame_count / frame / module_offset / function_offset / the crashing_thread copy / modules are computed from the data they duplicate; bytes reach the writer only through serde_json. '
-         'Validity and escaping are serde_json\'s; schema conformance of values for hostile states is not decided.',
+         'Validity and escaping are serde_json\'s; schema conformance of values for hostile states is not decided. set_print_context stores this state\'s pointer width into the thread-local unconditionally and is its only writer (C15.3b).',
     note='Trusted: serde_json (valid UTF-8 JSON, escaping, BTreeMap-backed Map), the json! macro expansion shape as seen in MIR, rustc.',
     ref='DESIGN.md §3 C15')
 
